@@ -50,6 +50,18 @@ func vhC12Op(env *vhEnv, op int, who string) (string, error) {
 			return "none", nil
 		}
 		return "some", nil
+	case 6: // remove the rule
+		_, err := env.state.Rem(env.ctx, "r")
+		return "", err
+	case 7: // uncached rule lookup for an event that matches rule r
+		rs, err := env.state.FindRules(env.ctx, Map{"a": "1"})
+		if err != nil {
+			return "", err
+		}
+		if len(rs) == 0 {
+			return "none", nil
+		}
+		return "some", nil
 	}
 	vassume(false)
 	return "", nil
